@@ -312,7 +312,7 @@ CLAIMED = {
         '(unresolved parameter, callback parameter of a callback type) are inputs of the model.',
    ref='DESIGN.md §4 C05'),
  'C10': dict(
-   technique='Coq proof over a model of the annotation-field parser and writer (character loop, option parsing, serializer; vocabulary regenerated from annotationparser.py) + in-Coq correspondence on field strings + differential runs of the real block parser and writer over layouts',
+   technique='Coq proof over two models of the comment parser - the annotation fields (character loop, option parsing, serializer) and the whole block parser (parse_comment_block with its fifteen regular expressions translated from the compiled patterns, validate() with rules read from the syntax tree) - + in-Coq correspondence of both with the real parser on generated, damaged and line-soup comments + differential runs of the real parser and writer over layouts',
    text='Theorems (Coq, axiom-free): whatever runs of blanks (tabs, several spaces, none) stand before, between and after the '
         'parenthesised annotation groups, exactly the groups are recovered in order (C10_annotation_layout, induction over the character '
         'loop with its nesting level, buffer and previous-character state); the options of a list annotation come back in order and an '
@@ -321,30 +321,50 @@ CLAIMED = {
         'empty description and no complaint (C10_write_parse_roundtrip); a field without annotations is its description, a leading colon '
         'included, and annotations + colon + description as the writer lays them out give back both (C10_description_without_annotations, '
         'C10_annotations_and_description; the first was false before fix 4782904); key=value options of array/attributes annotations come '
-        'back key by key in order, a value containing = included, for every list of distinct keys (C10_dict_options). Tie: 600 (thorough 6000) field strings - serialized '
-        'annotation sets in varying layouts, a malformed stream and character soup - go through the real _parse_fields and are compared '
-        'with Model.C10.parse_fields inside Coq (success, every annotation with its options, description), the real '
-        '_serialize_annotations is compared byte for byte with the model, and whole blocks (identifier kinds, parameters, multi-paragraph '
-        'descriptions, tags) rendered with LF/CRLF/CR, space and tab indentation, wrapped annotations and optional colons must parse to '
-        'the generated block and survive write + parse with the project\'s own writer.',
-   note='PARTIAL: the line-level state machine of parse_comment_block is tied by differential runs only, not modelled; dictionary '
-        'annotations (array, attributes) are in the model and the correspondence but the round-trip theorem is for list annotations. '
-        'Trusted: Coq kernel+VM; gen_c10.py, gen_unicode.py (Python\'s isspace set); ASCII annotation names.',
+        'back key by key in order, a value containing = included, for every list of distinct keys (C10_dict_options); lines joined by LF, '
+        'by CR LF or by CR are cut into exactly those lines, so the whole result of the block parser - block, indentation, diagnostics - '
+        'is the same under the three conventions (C10_line_endings, C10_block_line_endings, over Model.C10B.parse_block). Tie: 600 '
+        '(thorough 6000) field strings - serialized annotation sets in varying layouts, a malformed stream and character soup - go '
+        'through the real _parse_fields and are compared with Model.C10.parse_fields inside Coq, the real _serialize_annotations is '
+        'compared byte for byte with the model; 620 (thorough 9500) whole comments - generated blocks in ten layouts and comments '
+        'composed line by line from everything the state machine distinguishes (all identifier kinds, parameters, @returns, @Varargs, '
+        'tags incl. the deprecated annotation tags and Description:, continuation lines, 100 annotation spellings, damaged start and '
+        'end tokens, lines without asterisk, non-ASCII case variants) - go through the real parse_comment_block and are compared inside '
+        'Coq with Model.C10B.parse_block: the block with every part, annotation, position, description and value, block.indentation, '
+        'every diagnostic with its line, column and quoted line, and the diagnostics of validate(); whole blocks rendered with '
+        'LF/CRLF/CR, space and tab indentation, wrapped annotations, optional and set-off colons must parse to the generated block and '
+        'survive write + parse with the project\'s own writer.',
+   note='PARTIAL: the writer GtkDocCommentBlockWriter.write is tied by the write + parse runs only; the block-level round trip and the '
+        'independence of the indentation in front of the asterisks are validated per run, not proved (the block model executes the '
+        'translated regular expressions; symbolic reasoning about them was done for the three unguarded patterns only, see C11). '
+        'Trusted: Coq kernel+VM; gen_c10.py, gen_c10b.py (CPython\'s re._parser for the pattern structure; \\s, \\w, \\d, '
+        'case-insensitive literals, str.lower and str.capitalize as tables computed by the running interpreter; final-sigma '
+        'lower-casing not modelled), gen_c10v.py (syntax tree of the _do_validate_ methods), gen_unicode.py.',
    ref='DESIGN.md §4 C10'),
  'C11': dict(
-   technique='Coq proof over models of diagnostic counting/suppression, block line numbering and annotation-field error positions + robustness and position checks on the real parser',
-   text='Theorems (Coq, axiom-free): every diagnostic is counted whether or not it is displayed, so a warnings-as-errors run fails exactly '
-        'when something was diagnosed (C11_counted_even_when_suppressed, C11_fails_iff_diagnosed, induction over the message list); the '
-        'k-th line after an opening token that stands alone on line L is line L+1+k (C11_block_line_numbers); an error found in an '
-        'annotation field is reported at a character of that field, so the caret lies within the quoted line (C11_caret_within_field, '
-        'over the Model.C10 character loop that is tied to the real parser in C10). Tie on the real parser: a damaged comment (insertions '
-        'incl. NUL and non-ASCII, deletions, shuffled lines, truncation, other line endings, trailing code, soup) between two '
-        'well-formed ones never raises, never triggers the internal-error path and never loses the neighbours; a block with one of 10 '
-        'annotation defects on a known parameter line at three starting lines: every diagnostic names that file and line, quotes the '
-        'source line, keeps the caret inside it, nothing is half-applied, and counts agree with display on and off.',
-   note='PARTIAL: "never raises for any text" is tested (seeded mutation fuzzing), not proved - the block parser is not modelled; proved '
-        'are the counting law, the line arithmetic and the caret bound for annotation fields. The C lexer that extracts comments from '
-        'sources and scannermain\'s --warn-error exit are not exercised (lexer not buildable here).',
+   technique='Coq proof over the block-level model of the comment parser (every diagnostic placed on its source line with the caret inside; no unguarded match can fail) and over models of diagnostic counting/suppression + in-Coq correspondence of the model with the real parser, exceptions and every diagnostic included + robustness and position clauses on the real parser',
+   text='Theorems (Coq, axiom-free, for EVERY comment text): in a comment whose opening and closing tokens stand alone on their lines, '
+        'every diagnostic of the parse phase names a line of the comment, quotes exactly that source line and keeps its caret within '
+        'it - or stands on a line with a deprecated tag-style annotation (diagnostic 13 on that line), where the property claims the line '
+        'only (C11_diagnostics_placed; by an invariant of the annotation character loop, the bound on capture groups of the '
+        'backtracking matcher, and the fact that str.lower keeps the length of what comes out ASCII); the parser never dereferences a '
+        'failed match: INDENTATION_RE, TAG_VALUE_VERSION_RE and TAG_VALUE_STABILITY_RE, the three patterns used without a test, match '
+        'every text without a line feed, and no line feed reaches them (C11_unguarded_patterns_total, C11_model_never_raises; '
+        'total_on_lines is a verified sufficient condition evaluated on the patterns as regenerated from the source); every diagnostic '
+        'is counted whether or not it is displayed, so a warnings-as-errors run fails exactly when something was diagnosed '
+        '(C11_counted_even_when_suppressed, C11_fails_iff_diagnosed); line arithmetic and the caret bound of the field-level model '
+        '(C11_block_line_numbers, C11_caret_within_field). Tie: 750 (thorough 15000) damaged and line-soup comments go through the real '
+        'parse_comment_block and are compared inside Coq with Model.C10B.parse_block - raised or not, the block, every diagnostic with '
+        'level, message kind, line, column and quoted line, and validate()\'s diagnostics; the crisp clauses (no exception, file, line '
+        'inside the comment, quoted line = source line, caret within it) are judged directly on each of them. Further on the real parser: '
+        'a damaged comment between two well-formed ones never raises and never loses the neighbours; one of 10 annotation defects on a '
+        'known line at three starting lines; deprecated tag-style annotations; every annotation name without options; '
+        'warnings-as-errors through the real scanner_main.',
+   note='The theorems are about Model.C10B (the real parser is CPython code): "never raises" is proved for the model - whose only raising '
+        'points are failed matches that are dereferenced - and tied per run by comparing the flag with exceptions actually raised; '
+        'exceptions of other origin (a TypeError inside CPython, say) are outside the model and are only sampled. The C lexer that '
+        'extracts comments from sources is not exercised (not buildable here). Known findings: C11-K1 (validate() names the first line '
+        'of a part), C11-K2 (text in front of the end token is quoted without it).',
    ref='DESIGN.md §4 C11'),
  'C07': dict(
    technique='Coq proof of the writer/reader attribute contract on lists regenerated from girwriter.py and girparser.py, of the default-value encodings and of the member length pairing + the project\'s own read/write cycle on scanner-written and shipped GIRs',
